@@ -101,7 +101,7 @@ def main():
         })
     man = {
         "version": 1,
-        "setup_cmd": "cd lean && lake build Sck driver",
+        "setup_cmd": "cd lean && (lake build Sck driver || lake build Sck driver)",
         "hooks": {"guard": "SOCIALCHOICEKIT_VERIF", "enable": "no source hooks are needed: checks import /repo's working tree in fresh interpreters (SOCIALCHOICEKIT_VERIF=1 is set but read by nothing)",
                   "baseline_off_cmd": "cd /repo && /venv/bin/python -m pytest -ra -q -p no:cacheprovider --timeout=900 --continue-on-collection-errors",
                   "source_commits": [], "add_only": True},
